@@ -42,10 +42,18 @@ type C16End struct {
 	// write of their own
 	Total int `json:"total,omitempty"`
 	Frag  int `json:"frag,omitempty"`
+	// Bulk (oversize): this many 5001-byte PUBLISH packets are written back to back, in one
+	// write, before the big packet (a connection that has seen bulk traffic earlier in its life)
+	Bulk int `json:"bulk,omitempty"`
 }
 
 type C16Case struct {
 	Transport
+	BufSize int `json:"bufsize,omitempty"` // 0 = 16384
+	// Visitors short-lived connections come and go after the first VisitAfter clients have
+	// connected (a server that has seen many connections in its life)
+	Visitors   int `json:"visitors,omitempty"`
+	VisitAfter int `json:"visit_after,omitempty"`
 	Clients []C16Client `json:"clients"`
 	Ends    []C16End    `json:"ends"`
 }
@@ -98,7 +106,11 @@ func runC16(c C16Case) (res c16result) {
 			return c16result{Incon: fmt.Sprintf("library goroutines left over from an earlier case: %v", census.Summary(left))}
 		}
 	}
-	b, err := fix.New(16384, "")
+	bs := c.BufSize
+	if bs == 0 {
+		bs = 16384
+	}
+	b, err := fix.New(int64(bs), "")
 	if err != nil {
 		return c16result{Fail: "fixture: " + err.Error()}
 	}
@@ -121,6 +133,29 @@ func runC16(c C16Case) (res c16result) {
 	conns := make([]*fix.Conn, n)
 	open := make([]bool, n)
 	for i, cl := range c.Clients {
+		if c.Visitors > 0 && n > 1 && i == 1+((c.VisitAfter%(n-1))+(n-1))%(n-1) {
+			var vs []*fix.Conn
+			for v := 0; v < c.Visitors; v++ {
+				vc := b.Dial(fmt.Sprintf("v%d", v))
+				if _, err := vc.Connect(wire.ConnectPacket(fmt.Sprintf("v%d", v), true, 300)); err != nil {
+					return c16result{Fail: fmt.Sprintf("visitor %d connect: %v", v, err)}
+				}
+				if v%2 == 0 {
+					vc.Send(&codec.Packet{Type: codec.DISCONNECT})
+				}
+				vc.Close()
+				vs = append(vs, vc)
+			}
+			for v, vc := range vs {
+				if !vc.WaitTeardown(wire.DefaultWait) {
+					return c16result{Incon: fmt.Sprintf("teardown of visitor %d not seen", v)}
+				}
+			}
+			cls[fmt.Sprintf("visitors>=%d-before-client-%d", c.Visitors/100*100, i)] = true
+			if c.Visitors >= 256 {
+				cls["server-has-seen->=256-connections"] = true
+			}
+		}
 		cn := b.Dial(fmt.Sprintf("k%d", i))
 		ka := uint16(300)
 		if cl.KA1 {
@@ -132,7 +167,7 @@ func runC16(c C16Case) (res c16result) {
 			cp.WillTopic, cp.WillMessage = []byte(fmt.Sprintf("will/%d", i)), []byte(fmt.Sprintf("will-of-%d", i))
 			if cl.WillSize > 0 {
 				cp.WillMessage = bytes.Repeat([]byte{byte('a' + i)}, cl.WillSize)
-				cls["will-larger-than-a-connection-buffer"] = cls["will-larger-than-a-connection-buffer"] || cl.WillSize > 16384
+				cls["will-larger-than-a-connection-buffer"] = cls["will-larger-than-a-connection-buffer"] || cl.WillSize > bs
 			}
 		}
 		if _, err := cn.Connect(cp); err != nil {
@@ -341,6 +376,12 @@ func runC16(c C16Case) (res c16result) {
 				total = 16
 			}
 			pk := codec.Encode(&codec.Packet{Type: codec.PUBLISH, Topic: []byte("big/x"), Payload: make([]byte, total)})
+			if e.Bulk > 0 {
+				one := codec.Encode(&codec.Packet{Type: codec.PUBLISH, Topic: []byte("big/y"), Payload: make([]byte, 5001)})
+				conns[i].SendAsync(bytes.Repeat(one, e.Bulk))
+				settled(time.Second)
+				cls["end:oversize-packet-after-bulk-traffic"] = true
+			}
 			f := e.Frag
 			if f < 1 || f >= len(pk) {
 				f = 1
@@ -423,7 +464,7 @@ func runC16(c C16Case) (res c16result) {
 			if cl.Will && wantWill[i] {
 				want = 1
 			}
-			if cl.WillSize+len(fmt.Sprintf("will/%d", i))+8 > 16384 {
+			if cl.WillSize+len(fmt.Sprintf("will/%d", i))+8 > bs {
 				want = 0 // larger than the witness connection's buffer: it cannot be delivered to it
 			}
 			if g := got[fmt.Sprintf("will/%d", i)]; g != want {
@@ -515,16 +556,50 @@ func genC16Crowd(t *rapid.T) C16Case {
 		c.Ends = append(c.Ends, C16End{C: rapid.IntRange(0, n-1).Draw(t, "ec"), Cause: rapid.SampledFrom([]string{"close", "disconnect", "garbage"}).Draw(t, "cause")})
 	}
 	c.Ends = append(c.Ends, C16End{Cause: "serverclose"})
+	if rapid.IntRange(0, 2).Draw(t, "visitors") == 0 {
+		c.Visitors, c.VisitAfter = rapid.SampledFrom([]int{260, 300, 520}).Draw(t, "nvisitors"), rapid.IntRange(0, n-1).Draw(t, "visitafter")
+	}
+	c.Transport = genTransport(t)
+	return c
+}
+
+// genC16Bulk: a connection that has carried bulk traffic (back-to-back packets filling every
+// read of the broker) sends one packet at the size limit of its buffer and ends.
+func genC16Bulk(t *rapid.T) C16Case {
+	var c C16Case
+	c.BufSize = rapid.SampledFrom([]int{32768, 65536, 65536, 262144}).Draw(t, "bufsize")
+	n := rapid.IntRange(1, 3).Draw(t, "nclients")
+	for i := 0; i < n; i++ {
+		c.Clients = append(c.Clients, C16Client{Clean: rapid.Bool().Draw(t, "clean"), Will: true})
+	}
+	limit := c.BufSize - 8192
+	for i := 0; i < n; i++ {
+		end := C16End{C: i, Cause: "oversize", Bulk: rapid.SampledFrom([]int{10, 70, 120, 250}).Draw(t, "nbulk")}
+		end.Total = limit - 11 + rapid.IntRange(-3, 1).Draw(t, "over")
+		end.Frag = rapid.SampledFrom([]int{1, 100, 5000, limit - 1}).Draw(t, "bulkfrag")
+		c.Ends = append(c.Ends, end)
+	}
 	c.Transport = genTransport(t)
 	return c
 }
 
 func genC16(t *rapid.T) C16Case {
-	if rapid.IntRange(0, 7).Draw(t, "crowd-case") == 0 {
+	switch rapid.IntRange(0, 7).Draw(t, "crowd-case") {
+	case 0:
 		return genC16Crowd(t)
+	case 1:
+		return genC16Bulk(t)
 	}
 	n := rapid.IntRange(2, 5).Draw(t, "nclients")
 	var c C16Case
+	c.BufSize = rapid.SampledFrom([]int{0, 0, 0, 65536}).Draw(t, "bufsize")
+	bs := 16384
+	if c.BufSize > 0 {
+		bs = c.BufSize
+	}
+	if rapid.IntRange(0, 11).Draw(t, "visitors") == 0 {
+		c.Visitors, c.VisitAfter = rapid.SampledFrom([]int{120, 260, 300}).Draw(t, "nvisitors"), rapid.IntRange(0, n-1).Draw(t, "visitafter")
+	}
 	for i := 0; i < n; i++ {
 		cl := C16Client{Clean: rapid.Bool().Draw(t, "clean"), Will: rapid.Bool().Draw(t, "will"), KA1: rapid.IntRange(0, 6).Draw(t, "ka1") == 0}
 		if cl.Will && rapid.IntRange(0, 4).Draw(t, "bigwill") == 0 {
@@ -559,8 +634,17 @@ func genC16(t *rapid.T) C16Case {
 			end.Frag = rapid.SampledFrom([]int{1, 2, 5, 100, 1000, 4000}).Draw(t, "frag")
 			if rapid.Bool().Draw(t, "at-the-limit") {
 				// packets of 8191 ... 8196 bytes (the 16 KiB inbound buffer takes in 8192), cut around that mark
-				end.Total = 8192 - 10 + rapid.IntRange(-1, 4).Draw(t, "over")
-				end.Frag = 8192 + rapid.IntRange(-1, 3).Draw(t, "fragover")
+				limit := bs - 8192
+				overhead := 10
+				if limit >= 16384+10 {
+					overhead = 11 // three bytes of remaining length
+				}
+				end.Total = limit - overhead + rapid.IntRange(-1, 4).Draw(t, "over")
+				end.Frag = limit + rapid.IntRange(-1, 3).Draw(t, "fragover")
+				if rapid.IntRange(0, 2).Draw(t, "bulk") == 0 {
+					end.Bulk = rapid.SampledFrom([]int{10, 70, 120, 250}).Draw(t, "nbulk")
+					end.Frag = rapid.SampledFrom([]int{1, 100, 5000, limit - 1}).Draw(t, "bulkfrag")
+				}
 			}
 		}
 		c.Ends = append(c.Ends, end)
